@@ -254,7 +254,7 @@ void c09_cond_wait_hook(void *cond, void *lock)
 }
 
 #if C09_MODE == 3
-/* known finding KF-C09-spurious-wakeup: event_del waits ONCE on current_event_cond (no re-check loop) */
+/* a spurious wake-up of the condition wait must be re-checked (fixes/C09-del-wait-loop.diff: `while`, not `if`) */
 static void delwait_call(void)
 {
 	int r;
